@@ -542,6 +542,21 @@ class FactBase:
         nm = c.get("name")
         if not nm:
             return None
+        if c.get("nm") in ("try_emplace", "emplace", "emplace_back", "emplace_hint") and "obj" in n:
+            # in-place construction of the container's mapped/element type from the trailing arguments
+            ot = (strip(n["obj"]).get("t") or {})
+            ta = ot.get("targs") or []
+            nargs = len(n.get("args", []))
+            rec = None
+            if c["nm"] == "emplace_back" and ta:
+                rec, k = ta[0], nargs
+            elif len(ta) >= 2:
+                rec, k = ta[1], nargs - (2 if c["nm"] == "emplace_hint" else 1)
+            if rec:
+                ctors = [f for f in self.by_name.get(rec + "::" + rec.split("::")[-1], []) if not f.raw.get("templated") and len(f.params) == k]
+                if ctors:
+                    return ctors[0]
+            return None
         if nm in ("std::make_unique", "std::make_shared") and c.get("targs"):
             # constructs targs[0] from the arguments: resolve to that constructor
             rec = c["targs"][0]
@@ -588,6 +603,17 @@ class FactBase:
                     if g is not None and g.key not in seen:
                         st.append(g)
         return seen
+
+
+def effective_call(n):
+    """A call node whose `args` line up with the parameters of the function resolve_call
+    returns: for emplace-style calls the leading key/hint argument is dropped."""
+    c = n.get("callee") or {}
+    if c.get("nm") in ("try_emplace", "emplace", "emplace_hint") and "obj" in n:
+        m = dict(n)
+        m["args"] = n.get("args", [])[(2 if c["nm"] == "emplace_hint" else 1):]
+        return m
+    return n
 
 
 def load(root="/repo", config="default", extra_flags=()):
